@@ -122,7 +122,9 @@ class _Jac(LinearOperator):
         self.fcn = fcn
         self.yparam = yparam
         self.params = list(params)
-        self.objparams = fcn.objparams()
+        # a copy: uselinopparams writes into this list, and it must not be the
+        # list the pure function itself uses to track what is installed
+        self.objparams = list(fcn.objparams())
         self.yout = yout
         self.v = v
         self.idx = idx
